@@ -45,6 +45,7 @@ REPO = os.path.dirname(os.path.dirname(TP))
 # ------------------------------------------------------------------ site table (from the translator)
 
 ROWS = SW.scan()
+_SELF = compile("self", "<site-self>", "eval")
 EVOPS = {}          # (abs path, first line of the function) -> [(letter, span, target_code, value_code, key)]
 EVLINES = {}        # (abs path, line) -> [(order, letter, target_code, value_code, key)]
 SITEFUNCS = set()   # (abs path, first line of the function)
@@ -95,6 +96,12 @@ def _build_tables():
             add(l, tuple(order), "R", tgt, None)
         for l in ev["N"]:
             add(l, (0, 0, 0), "N", None, None)
+        for l in ev.get("Sself", []):
+            # the function reads its OWN name there: an event only when `self` is one of the modelled cells (nested wrapper)
+            sig = (path, l, "s", "self")
+            if sig not in seen:
+                seen.add(sig)
+                EVLINES.setdefault((path, l), []).append(((0, 0, 1), "s", _SELF, None, key))
     for k in EVLINES:
         EVLINES[k].sort(key=lambda e: e[0])
 
@@ -366,6 +373,14 @@ def _build_shape(name):
         class Ne(Structure):
             a = Array[inner]
             _required = []
+        if m.group(1) in WKIND:
+            # modelled: the wrapper object is the scratch cell of the outer loop, its options are cells of the wrapper's site
+            sh = Shape(name, Ne, {"a": ("nest", WKIND[m.group(1)])}, [("a", [inner] + list(inner._fields))], racy=True,
+                       extra={"inner": m.group(1)})
+            sh.sites = {sh.cell_ids[id(inner)]: {site_key(Ne.a)}}
+            for o in inner._fields:
+                sh.sites[sh.cell_ids[id(o)]] = {site_key(inner)}
+            return sh
         return Shape(name, Ne, racy=True, extra={"inner": m.group(1)})
     if name in ("immset", "shared_immset"):
         it = _nn()
@@ -578,6 +593,8 @@ A_SHAPES = ["array_int", "deque_int", "tuple_homog", "array_two_fields", "set_in
 # multi-field wrappers over scalar options and ImmutableSet: modelled since round 2 (stream A with INTEGER values only)
 A2_SHAPES = ["anyof", "oneof", "allof", "notfield", "shared_anyof", "shared_oneof", "shared_allof", "shared_notfield",
              "immset", "shared_immset"]
+# a multi-field wrapper as the single items object of a homogeneous Array (its own _name is the outer loop's scratch)
+A3_SHAPES = ["array_anyof", "array_oneof", "array_allof", "array_notfield"]
 E_SHAPES = ["shared_anyof", "shared_allof", "shared_oneof", "shared_notfield", "array_anyof", "array_oneof",
             "array_allof", "array_notfield", "array_set", "array_immset", "array_map", "array_array", "array_pos",
             "array_dequepos", "array_tuple", "immset", "shared_immset", "anyof", "oneof", "allof", "notfield",
@@ -1039,6 +1056,10 @@ class Run:
                             continue
                         obj = eval(tgt, frame.f_globals, frame.f_locals)
                         c = self.cell_ids.get(id(obj), -1)
+                        if letter == "s":
+                            if c >= 0:
+                                self.events.append((tid, f"S{c}"))
+                            continue
                         if letter == "W":
                             v = eval(val, frame.f_globals, frame.f_locals)
                             self.events.append((tid, f"W{c}={v}"))
@@ -1461,6 +1482,11 @@ def model_call(sh, th):
     if kind[0] in ("set", "iset"):
         order = list(mk(v))   # iteration order of the real set
         return {"k": kind[0], "cell": cells[0], "name": f, "elems": [el(x) for x in order]}
+    if kind[0] == "nest":
+        owner = sh.classes[th.get("cls", 0)].__dict__[f].items
+        xs = v["l"]
+        return {"k": "nest", "cell": cells[0], "name": f, "kind": kind[1],
+                "elems": [[x, [[c, _accepts(o, x)] for c, o in zip(cells[1:], owner._fields)]] for x in xs]}
     if kind[0] == "wrap":
         owner = sh.classes[th.get("cls", 0)].__dict__[f]
         return {"k": "wrap", "kind": kind[1], "name": f, "v": v, "opts": [[c, _accepts(o, v)] for c, o in zip(cells, owner._fields)]}
@@ -1499,7 +1525,7 @@ def real_as_model(sh, th, res):
     else:
         f = th["field"]
     kind = sh.model[f][0]
-    if kind in ("homog", "pos"):
+    if kind in ("homog", "pos", "nest"):
         return {"ok": list(v.get("l", v.get("q", v.get("t"))))}
     if kind == "set":
         return {"okset": sorted(v["s"])}
@@ -1607,6 +1633,9 @@ def correspondence(case, impl, model):
         for i, th in enumerate(ths):
             steps = [s for s in model["progs"][i] if s != "E"]
             ev = o["events"][i]
+            # a write whose value is read from another cell at that moment is spelled W<c>=@<source> by the model
+            ev = [e.split("=")[0] + "=@" + st.split("=@")[1] if "=@" in st and e.startswith("W") else e
+                  for e, st in zip(ev, steps + [""] * len(ev))]
             if ev != steps[:len(ev)]:
                 return (f"thread {i} performed events {ev} but its model program is {steps} "
                         f"(schedule {json.dumps(o['sched'])})")
@@ -1743,6 +1772,9 @@ def _gen_thread(rng, sname, stream, field, tid, cls):
         op = rng.choice(["setattr", "construct"])
     else:
         op = rng.choice(["setattr", "construct", "deserialize", "serialize", "construct"])
+    if stream == "A" and sname in A3_SHAPES:
+        v = {"l": [_int(rng, 0.25) for _ in range(rng.randint(1, 3))]}
+        return {"op": op, "field": f, "value": v} if op == "setattr" else {"op": op, "kw": {f: v}}
     if stream == "A" and sname in A2_SHAPES and shape(sname).model[f][0] == "wrap":
         # the model's values are integers: valid (>= 0) / rejected by the Integer(minimum=0) / Number(minimum=0) options
         v = _int(rng, 0.35)
@@ -1779,6 +1811,8 @@ CANONICAL = [
     ("shared_anyof", 5, 7),
     ("shared_allof", -1, 7),
     ("shared_immset", {"fs": [1, 2]}, {"fs": [3]}),
+    ("array_oneof", {"l": [-4]}, {"l": [7]}),
+    ("array_notfield", {"l": [10]}, {"l": [20, 21, 22]}),
 ]
 
 
@@ -1842,6 +1876,9 @@ def gen_cases(rng, tier, scale=1.0):
                                   {"op": "setattr", "field": fl[1], "value": v1}]})
     for sname in (rng.sample(A_SHAPES + A2_SHAPES, 2) if quick else A_SHAPES + A2_SHAPES):
         add("A", sname, 2, max_pre=1 if quick else 2, cap=120 if quick else 150, **{"yield": "siteops"})
+    for sname in A3_SHAPES:
+        for _ in range(1 if quick else reps_a):
+            add("A", sname, 2, max_pre=max_pre, cap=100 if quick else 500)
     for sname, v0, v1 in CANONICAL_E:
         fl = pick_fields(rng, sname, 2)
         cases.append({"stream": "E", "shape": sname, "sseed": 1, "max_pre": 2, "cap": 400, "yield": "sitelines",
